@@ -216,15 +216,9 @@ func funcPkgPath(f *ssa.Function) string {
 func FullKey(f *ssa.Function) string { return funcPkgPath(f) + "::" + FuncKey(f) }
 
 func (e *Engine) contractOf(f *ssa.Function) *Contract {
-	if f.Synthetic != "" && f.Parent() == nil {
-		// wrappers / bound methods: look through to the declared method
-		if o := f.Object(); o != nil {
-			if fn, ok := o.(*types.Func); ok {
-				if decl := e.Prog.FuncValue(fn); decl != nil && decl != f {
-					return e.contractOf(decl)
-				}
-			}
-		}
+	if f.Synthetic != "" && f.Parent() == nil && !(f.Name() == "init") {
+		// wrappers, thunks and bound-method closures are executed (they call the declared method, which may carry a contract)
+		return nil
 	}
 	return e.Specs.Contracts[FullKey(f)]
 }
